@@ -34,12 +34,13 @@ import (
 )
 
 type c12Cfg struct {
-	Mode    string `json:"mode"` // full | delta | meta | compound
-	K       int    `json:"k"`    // old shards
-	M       int    `json:"m"`    // new shards (full, compound)
-	D       int    `json:"d"`    // documents per class
-	Sidecar bool   `json:"sidecar"`
-	Dir     string `json:"dir"`
+	Mode    string   `json:"mode"` // full | delta | meta | compound
+	K       int      `json:"k"`    // old shards
+	M       int      `json:"m"`    // new shards (full, compound)
+	D       int      `json:"d"`    // documents per class
+	Sidecar bool     `json:"sidecar"`
+	Dir     string   `json:"dir"`
+	Dirs    []string `json:"dirs"` // load: several surviving directories, one view line each
 }
 
 const (
@@ -78,9 +79,16 @@ func init() {
 		}
 		os.Exit(0)
 	case "load":
-		if err := c12Load(cfg); err != nil {
-			fmt.Fprintln(os.Stderr, "c12 load:", err)
-			os.Exit(70)
+		dirs := cfg.Dirs
+		if len(dirs) == 0 {
+			dirs = []string{cfg.Dir}
+		}
+		for _, d := range dirs {
+			cfg.Dir = d
+			if err := c12Load(cfg); err != nil {
+				fmt.Fprintln(os.Stderr, "c12 load:", err)
+				os.Exit(70)
+			}
 		}
 		os.Exit(0)
 	}
@@ -327,7 +335,7 @@ func c12Load(cfg c12Cfg) error {
 		names = append(names, filepath.Base(f))
 	}
 	out, _ := json.Marshal(map[string]any{
-		"view": view, "bad": bad, "crashes": all.Stats.Crashes + pub.Stats.Crashes, "files": names,
+		"dir": cfg.Dir, "view": view, "bad": bad, "crashes": all.Stats.Crashes + pub.Stats.Crashes, "files": names,
 		"nfiles": len(all.Files),
 	})
 	fmt.Printf("C12VIEW %s\n", out)
